@@ -108,6 +108,10 @@ def handle (j : Json) : R Json := do
     if let .ok (.str "advert") := op.getObjVal? "ev" then
       outs := outs.push (Json.mkObj [("advert", jhex (advertisedId ps)), ("paired", jpairings ps.paired)])
       continue
+    if let .ok (.str "set-code") := op.getObjVal? "ev" then
+      ps := (stepEv cfg ps (.setCode (← getHex op "code"))).1
+      outs := outs.push (Json.mkObj [("bystander", Json.str "set-code"), ("paired", jpairings ps.paired)])
+      continue
     if let .ok (.str ev) := op.getObjVal? "ev" then
       -- bystander activity: connection made/lost, a refused request on another connection
       let e : Ev := if ev == "conn-lost" then .connLost else if ev == "unpair" then .unpair else .other
